@@ -1,6 +1,6 @@
 """C06 — a reaction's result does not depend on its batch context.
 
-(a) E1: all ordered sub-batches of size 1..3 of a 10-reaction base set (one reaction per
+(a) E1: all ordered sub-batches of size 1..3 of a 14-reaction base set (one reaction per
     pipeline path) and the full set under every batch size; rows compared with the
     alone-run rows; statistics of a batched run = key-wise sum of its batches' statistics,
     equal for every partition.
@@ -36,7 +36,11 @@ B06 = [
     "CCO.O>>CC(=O)O",                                      # oxidation to acid
     "c1ccccc1Br.OB(O)c1ccccc1>>c1ccccc1-c1ccccc1",         # rule-based (Suzuki)
     "CC(=O)OCC.[Na+].[OH-]>>CC(=O)[O-].[Na+]",             # mcs with ions
-    "CC(=O)Cl.NCc1ccccc1>>CC(=O)NCc1ccccc1",               # rule-based (amide)
+    "CC(=O)Cl.NCc1ccccc1>>CC(=O)NCc1ccccc1",               # rule-based (amide), product side imputed
+    "CCBr>>N",                                             # reaches the MCS stage, no common substructure at all
+    "Oc1ccccc1O>>O=C1C=CC=CC1=O.OO",                       # rule-based, reactant side imputed, a given OO
+    "CC=O.CC=O>>CC(O)CC=O",                                # input-balanced, a repeated molecule
+    "CC=O>>CCO",                                           # rule-based, the same molecule once
 ]
 EXTRA = "CCN(CC)CC.CC(=O)Cl.OCc1ccccc1>>CC(=O)OCc1ccccc1"  # mcs with catalyst pass-through
 SCHED_BATCHES = [
@@ -224,7 +228,7 @@ def conformance_case(job):
 def covering_triples():
     n = len(B06)
     out = []
-    for a, b in ((1, 2), (2, 5), (3, 7), (4, 9), (5, 1), (7, 3)):
+    for a, b in ((1, 2), (2, 5), (3, 7), (4, 9), (5, 1), (7, 3), (11, 6)):
         for i in range(n):
             out.append((B06[i], B06[(i + a) % n], B06[(i + b) % n]))
     return out
@@ -306,12 +310,12 @@ def run(tier, seed):
         "real_joblib_worker_counts": list(ks),
         "evaluations": n_exec + len(subs) + len(pj) + len(reps),
         "distinct_nontrivial": len(subs) + n_exec,
-        "rule": "(a) every ordered sub-batch of size 1..2{} of the 10-reaction base set, the 11-reaction set under every "
+        "rule": "(a) every ordered sub-batch of size 1..2{} of the 14-reaction base set, the 15-reaction set under every "
                 "batch size; (b) for 3 batches of 3 rows every Parallel call x every non-default task order "
                 "(all 3! orders) with <= {} order deviation(s) x isolation {}; (c) real joblib with n_jobs in {}; "
                 "(d) repeated runs on one instance.  distinct_outcomes = distinct row tables seen over all schedules "
                 "(1 per batch and isolation means no schedule changed anything).".format(
-                    " and every triple" if thorough else " and 60 triples of a cyclic covering design", bound, list(isos), list(ks)),
+                    " and every triple" if thorough else " and 98 triples of a cyclic covering design", bound, list(isos), list(ks)),
         "exhaustive": True,
     }
     res.assumptions = [
